@@ -16,6 +16,7 @@ type Conn struct {
 	FailWriteAt     int // fail the n-th Write (1-based); 0 = never
 	Closed          bool
 	WriteAfterClose int
+	OnWrite         func(n int) // observation hook, called after the n-th successful Write
 }
 
 func NewConn(s Script) *Conn { return &Conn{R: NewReader(s)} }
@@ -36,7 +37,11 @@ func (c *Conn) Write(p []byte) (int, error) {
 	if c.FailWriteAt > 0 && c.Writes >= c.FailWriteAt {
 		return 0, errors.New("env: write: broken pipe")
 	}
-	return c.W.Write(p)
+	n, err := c.W.Write(p)
+	if c.OnWrite != nil {
+		c.OnWrite(c.Writes)
+	}
+	return n, err
 }
 
 func (c *Conn) Close() error                       { c.Closed = true; return nil }
